@@ -15,6 +15,8 @@ import HtaVerif.Model.C11
 import HtaVerif.Model.C03
 import HtaVerif.Model.C13
 import HtaVerif.Model.C16
+import HtaVerif.Model.C08
+import HtaVerif.Spec.C08
 /-!
 `htadrv` — line protocol driver. One JSON request per input line, one JSON answer per
 output line. Imports only `Model/*` and `Spec/*` (core Lean), never a proof file.
@@ -121,6 +123,30 @@ def flt (j : Json) : Except String C18.Flt := do
   | "cpu" => return .cpu (← getBool a[1]!)
   | "memcopy" => return .memcopy (← getStr a[1]!) (← getBool a[2]!)
   | _ => throw s!"unknown filter {k}"
+
+def etyStr : C08.ETy → String
+  | .op => "op" | .dep => "dep" | .launch => "launch" | .kk => "kk" | .sync => "sync"
+
+def c08Graph (rs : List Row) (ann : String) (iS iE : Nat) (zl : Bool) : Json :=
+  match C08.window rs ann iS iE with
+  | none => Json.mkObj [("window", Json.null)]
+  | some w =>
+    let (clipped, g) := C08.build rs w zl
+    let nodes := (C08.nodesOf clipped).map fun (n, ts) => Json.arr #[jInt n.ev, Json.bool n.isStart, jInt ts]
+    let edges := g.edges.map fun e =>
+      let a := (g.attr.find? fun x => x.1 == e.src && x.2.1 == e.dst).map (·.2.2)
+      Json.arr #[jInt e.src.ev, Json.bool e.src.isStart, jInt e.dst.ev, Json.bool e.dst.isStart, jInt e.weight,
+        Json.str (etyStr e.ty), match a with | some v => jInt v | none => Json.null]
+    Json.mkObj [("window", Json.arr #[jInt w.1, jInt w.2]), ("clipped", Json.arr (clipped.map fun r => jInt r.idx).toArray),
+      ("nodes", Json.arr nodes.toArray), ("edges", Json.arr edges.toArray)]
+
+def c08Edge (j : Json) : Except String C08.Edge := do
+  let a ← getArr j
+  let ty ← getStr a[5]!
+  let t := if ty == "op" then C08.ETy.op else if ty == "dep" then .dep else if ty == "launch" then .launch
+    else if ty == "kk" then .kk else .sync
+  return { src := ⟨← getInt a[0]!, ← getBool a[1]!⟩, dst := ⟨← getInt a[2]!, ← getBool a[3]!⟩,
+           weight := ← getInt a[4]!, ty := t }
 
 def handle (j : Json) : Except String Json := do
   let op ← getStr (← field j "op")
@@ -325,6 +351,24 @@ def handle (j : Json) : Except String Json := do
     let out := (C16.run rs opn ml).map fun r =>
       Json.arr #[Json.arr (r.pattern.map Json.str).toArray, jInt r.count, jInt r.gpuDur, jInt r.cpuDur]
     return Json.mkObj [("table", Json.arr out.toArray)]
+  | "c08" =>
+    let rs ← rows (← field j "rows")
+    let ann ← getStr (← field j "annotation")
+    let iS ← getInt (← field j "i_start")
+    let iE ← getInt (← field j "i_end")
+    let zl ← getBool (← field j "zero_launch")
+    return c08Graph rs ann iS.toNat iE.toNat zl
+  | "c08.check" =>
+    -- the implementation's own graph: edges [srcEv,srcStart,dstEv,dstStart,weight,type] and a rank
+    -- [[ev,isStart,rank]...] taken from a topological order
+    let rs ← rows (← field j "rows")
+    let es ← (← getArr (← field j "edges")).toList.mapM c08Edge
+    let rk ← (← getArr (← field j "rank")).toList.mapM fun v => do
+      let a ← getArr v
+      return ((⟨← getInt a[0]!, ← getBool a[1]!⟩ : C08.NodeId), (← getInt a[2]!).toNat)
+    let rank := fun (n : C08.NodeId) => ((rk.find? fun p => p.1 == n).map (·.2)).getD 0
+    return Json.mkObj [("topo", Json.bool (C08.checkTopo es rank)), ("weights", Json.bool (C08.checkWeights rs es)),
+      ("forward", Json.bool (C08.checkForward rs es)), ("types", Json.bool (C08.checkTypes rs es))]
   | _ => throw s!"unknown op {op}"
 
 partial def loop (hin hout : IO.FS.Stream) : IO Unit := do
